@@ -120,15 +120,55 @@ func genC04(g *prng.R) c04Case {
 			cs.Untouched = append(cs.Untouched, alice()+"/followers")
 		}
 	case "Accept":
-		f := M{"type": "Follow", "id": L + "/act/f1", "actor": alice(), "object": carol()}
+		// the stored Follow names 1..3 actors; the Accept comes from a
+		// non-empty subset of them (verified) or, one time in four, from a
+		// subset plus an actor that was never followed (not verified: the
+		// following collection must stay as it is)
+		who := []string{carol(), dave(), erin()}
+		followed := who[:g.Range(1, 3)]
+		var fobj interface{} = stringsToA(followed)
+		if len(followed) == 1 {
+			fobj = followed[0]
+		}
+		f := M{"type": "Follow", "id": L + "/act/f1", "actor": alice(), "object": fobj}
 		sc.Store[L+"/act/f1"] = withCtx(f)
 		if g.Bool() {
 			act["object"] = f
 		} else {
 			act["object"] = L + "/act/f1"
 		}
+		var acc []string
+		for _, x := range followed {
+			if g.Bool() {
+				acc = append(acc, x)
+			}
+		}
+		if len(acc) == 0 {
+			acc = []string{followed[g.Intn(len(followed))]}
+		}
+		verified := true
+		if g.Chance(1, 4) {
+			verified = false
+			stranger := R2 + "/users/never-followed"
+			if g.Bool() {
+				acc = append(acc, stranger)
+			} else {
+				acc = append([]string{stranger}, acc...)
+			}
+		}
+		if len(acc) == 1 {
+			act["actor"] = acc[0]
+		} else {
+			act["actor"] = stringsToA(acc)
+		}
+		cs.Info["accept_verified"] = verified
 		sc.Store[alice()+"/following"] = M{"@context": AS, "type": "Collection", "id": alice() + "/following", "items": A{R2 + "/users/old"}}
-		cs.Front[alice()+"/following"] = []string{carol()}
+		if verified {
+			cs.Front[alice()+"/following"] = acc
+		} else {
+			cs.Untouched = append(cs.Untouched, alice()+"/following")
+			cs.Info["expect_error"] = true
+		}
 	case "Add", "Remove":
 		var objs A
 		var objIDs []string
@@ -301,6 +341,17 @@ func init() {
 			for _, u := range cs.Untouched {
 				if !reflect.DeepEqual(res.Before.Store[u], res.After.Store[u]) {
 					viol("untouchable-modified", "pub.FederatingWrappedCallbacks."+strings.ToLower(cs.Typ), cs.Typ, fmt.Sprintf("%s changed", u))
+				}
+			}
+			if cs.Info["expect_error"] == true && cs.Mode != "other" && !faulted {
+				// an Accept the stored Follow does not back: the default
+				// effect must fail, so nothing is added and no wrapped
+				// callback runs
+				if rp.Err == "" {
+					viol("unverified-accept-succeeded", "pub.FederatingWrappedCallbacks.accept", "accepting actor never followed", "the request succeeded although an accepting actor is not among the stored Follow's objects")
+				}
+				if cbIdx >= 0 {
+					viol("callback-after-failure", res.Log[cbIdx].Site, cs.Typ+" unverified", "wrapped callback ran for an Accept that was not verified")
 				}
 			}
 			if cs.Mode == "other" {
